@@ -48,7 +48,9 @@ def verus_version():
 
 
 def run(path, rlimit=30, multiple_errors=6, extra=None, timeout=1500, threads=None):
-    cmd = [VERUS, path, '--output-json', '--time', '--error-format=json',
+    # -V spinoff-all: every function gets a fresh Z3 instance, so a verdict never depends on which other
+    # functions share the file or on thread scheduling (a change in one function cannot flip another's result)
+    cmd = [VERUS, path, '--output-json', '--time', '--error-format=json', '-V', 'spinoff-all',
            '--multiple-errors', str(multiple_errors), '--rlimit', str(rlimit)]
     if threads:
         cmd += ['--num-threads', str(threads)]
